@@ -75,10 +75,13 @@ def cases(rng, tier):
     for i in range(150 if tier == "quick" else 4000):
         out.append((gs.rand_lts_case(rng, 36, default=(i % 4 == 0), minn=12, maxlabels=6).fmt(), "random_large"))
     # a small core plus padding states with self-loops: the core's (label, state) counters end up alone in a row of the shared counter table
-    for i in range(500 if tier == "quick" else 5000):
+    for i in range(1500 if tier == "quick" else 15000):
         nc = rng.randint(3, 7); npad = rng.randint(24, 34); n = nc + npad
-        nl = rng.randint(2, 3)
-        es = gs.rand_edges(rng, nc, nl, rng.randint(nc, 3 * nc))
+        nl = rng.randint(1, 3)
+        es = []
+        for e in gs.rand_edges(rng, nc, nl, rng.randint(nc, 3 * nc)):
+            es.append(e)
+            while rng.random() < 0.3: es.append(e)               # parallel edges: counters >= 2 for one successor
         es += [(q, rng.randrange(nl) if rng.random() < 0.2 else 0, q) for q in range(nc, n) if rng.random() < 0.95]
         perm = list(range(n)); rng.shuffle(perm)
         if rng.random() < 0.5: perm = list(range(n))
@@ -87,6 +90,8 @@ def cases(rng, tier):
         else:
             part = gs.rand_partition(rng, n, rng.randint(1, 3))
             out.append((gs.LtsCase(n, es, part, gs.rand_preorder(rng, len(part))).fmt(), "targeted_padded"))
+    # few labels, many parallel edges, coarse partitions with a small block relation (collapsed counter rows while blocks are still split)
+    for i in range(4000 if tier == "quick" else 80000): out.append((gs.parallel_edges_case(rng).fmt(), "targeted_parallel_edges"))
     return out
 
 def nontrivial(c, impl, verd):
